@@ -1,5 +1,6 @@
 //! Entry point: `vcheck <ID> --tier quick|thorough` or `vcheck <ID> --replay <file>`.
 mod c01;
+mod c03b;
 mod c04;
 mod corpus;
 mod c05;
